@@ -85,6 +85,13 @@ Proof. by rewrite mxE; apply: contraNneq => ->; rewrite mulr0. Qed.
 Lemma dag_supported_scale n (A : 'M[R]_n) r s : dag_supported A r -> dag_supported (s *: A) r.
 Proof. by move=> dagA i j /scale_support_sub/dagA. Qed.
 
+(* non-vacuity of dag_supported: the strictly lower triangular all-ones matrix (complete DAG, every edge j -> i with j < i)
+   with the rank r i = i; it is nilpotent by the theorem although every entry below the diagonal is non-zero *)
+Example strict_lower_dag n : dag_supported (\matrix_(i < n, j < n) (j < i)%:R : 'M[R]_n) (fun i => i).
+Proof. by move=> i j; rewrite mxE; case: (j < i)%N; rewrite ?eqxx. Qed.
+Example strict_lower_nilpotent n : pow_mx (\matrix_(i < n, j < n) (j < i)%:R : 'M[R]_n) n = 0.
+Proof. exact: dag_nilpotent (@strict_lower_dag n). Qed.
+
 (* a 2-cycle is not nilpotent *)
 Lemma two_cycle_sq : two_cycle R *m two_cycle R = 1%:M.
 Proof.
@@ -328,6 +335,14 @@ Proof. by move=> dagM; rewrite spectral_radius_scale (dag_spectral_radius dagM) 
 (* the 2-cycle has radius 1 >= 1 > 0 *)
 Lemma two_cycle_radius_ge1 : 1 <= spectral_radius (two_cycle C).
 Proof. by have [le _] := spectral_radiusP (two_cycle C); rewrite -[1]normr1; apply/le/two_cycle_eigenvalue1. Qed.
+
+(* non-vacuity of the hypotheses of normalised_radius_is_rho: the 2-cycle normalised to any rho >= 0 has radius rho *)
+Example two_cycle_normalised rho : 0 <= rho ->
+  spectral_radius ((rho / spectral_radius (two_cycle C)) *: two_cycle C) = rho.
+Proof.
+move=> rho0; apply: normalised_radius_is_rho => //.
+by rewrite gt_eqF // (lt_le_trans ltr01 two_cycle_radius_ge1).
+Qed.
 
 (* packaged statements for Properties/C18Mx.v *)
 Theorem two_cycle_facts : eigenvalue (two_cycle C) 1 /\ 1 <= spectral_radius (two_cycle C).
